@@ -580,6 +580,13 @@ package decimal
 //@   use p10def(a+b-1)
 //@   use p10def(b-1)
 
+//@ lemma p10_mono(a, b)
+//@   requires 0 <= a && a <= b
+//@   ensures p10(a) <= p10(b) && 1 <= p10(a)
+//@   induction b from a
+//@   use p10def(b-1)
+//@   use p10def(a)
+
 //@ lemma p10_split(a, b)
 //@   requires a >= 0 && b >= 0
 //@   ensures p10(19*a + b) == P(a)*p10(b)
